@@ -6,6 +6,7 @@ import (
 	"encoding/base64"
 	"encoding/hex"
 	"fmt"
+	"strings"
 
 	"verif/common"
 
@@ -192,6 +193,13 @@ func garbageCBC(l *lagg, s, salt []byte) (ev, nt int64) {
 		rank := int64(len(g))
 		if st == "" && ((ok && err == nil && bytes.Equal(got, want)) || (!ok && err != nil)) {
 			return
+		}
+		if st == "" && ok && err != nil {
+			// base64 whose last quantum carries non-zero padding bits decodes under the lenient
+			// reading only; a strict decoder rejects it. Either reading is an OpenSSL-compatible reader.
+			if _, strictErr := base64.StdEncoding.Strict().DecodeString(strings.NewReplacer("\n", "", "\r", "").Replace(string(g))); strictErr != nil {
+				return
+			}
 		}
 		c := map[string]any{"message": string(g), "secret": string(s), "type": kinds[ck]}
 		switch {
